@@ -657,14 +657,27 @@ where
                 return err(format!("variable out of range (line {line_no})"));
             };
 
+            let mut child_edges =
+                EdgeVecDropGuard::new(manager, Vec::with_capacity(M::InnerNode::ARITY));
             for &child in &children {
-                let child = child.unsigned_abs();
-                if child >= node_id {
+                let child_id = child.unsigned_abs();
+                if child_id >= node_id {
                     return err(format!(
-                        "children ids must be less than node ({child} >= {node_id}, line {line_no})",
+                        "children ids must be less than node ({child_id} >= {node_id}, line {line_no})",
                     ));
                 }
-                let child_level = manager.get_node(&nodes[child - 1]).level();
+                let e = manager.clone_edge(&nodes[child_id - 1]);
+                let e = if child < 0 {
+                    match complement(manager, e) {
+                        Ok(e) => e,
+                        Err(OutOfMemory) => return Err(io::ErrorKind::OutOfMemory.into()),
+                    }
+                } else {
+                    e
+                };
+                // Complementing may change the top level (e.g., in ZBDDs)
+                let child_level = manager.get_node(&e).level();
+                child_edges.push(e);
                 if level >= child_level {
                     return err(format!(
                         "node level must be less than the children's levels ({level} >= {child_level}, line {line_no})",
@@ -672,20 +685,8 @@ where
                 }
             }
 
-            <M::Rules as DiagramRules<_, _, _>>::reduce(
-                manager,
-                level,
-                children.iter().map(|&child| {
-                    debug_assert_ne!(child, 0);
-                    let e = manager.clone_edge(&nodes[child.unsigned_abs() - 1]);
-                    if child < 0 {
-                        complement(manager, e).unwrap()
-                    } else {
-                        e
-                    }
-                }),
-            )
-            .then_insert(manager, level)?
+            <M::Rules as DiagramRules<_, _, _>>::reduce(manager, level, child_edges.into_vec())
+                .then_insert(manager, level)?
         };
         nodes.push(node);
 
@@ -765,7 +766,6 @@ where
             manager,
             manager.clone_edge(&nodes[idx(&mut input, node_id, e_code)?]),
         );
-        let e_level = manager.get_node(&e).level();
         let e = if e_complement {
             match complement(manager, e.into_edge()) {
                 Ok(e) => EdgeDropGuard::new(manager, e),
@@ -776,6 +776,8 @@ where
         } else {
             e
         };
+        // Complementing may change the top level (e.g., in ZBDDs)
+        let e_level = manager.get_node(&e).level();
 
         let vid = match var_code {
             Code::Terminal => unreachable!(),
